@@ -179,6 +179,11 @@ class TailHooks(Hooks):
         from ..ir import manager_call, is_tmp
         if i.op == 'call':
             mc = manager_call(i)
+            if mc and mc[0] == 'free' and len(i.args) > 1:
+                a = strip_casts(i.args[1])
+                if a is not None and a.k == 'ref':
+                    facts = facts - {('lastmade', a.v, None)}
+                return facts
             if mc and mc[0] in ('malloc', 'calloc') and i.dst is not None:
                 facts = frozenset(x for x in facts if x[1] != i.dst.v)
                 return facts | {('alloc', i.dst.v, mc[0])}
@@ -219,10 +224,18 @@ class TailHooks(Hooks):
                 if const_value(i.src, self.prog) == 0:
                     return facts | {('term', base.v, None)}
                 return facts - {('term', base.v, None)}
+            if base.k == 'ref' and base.v in self.f.locals:
+                # an existing node is made the last one (`v->next = NULL`): pathTail has to follow
+                if const_value(i.src, self.prog) == 0:
+                    self.n += 1
+                    return facts | {('lastmade', base.v, None)}
+                facts = facts - {('lastmade', base.v, None)}
             if s is not None and s.k == 'ref' and ('fresh', s.v, None) in facts:
                 return facts | {('linked', s.v, None)}
             return facts
         if d.k == 'member' and d.v == 'pathTail':
+            if s is not None and s.k == 'ref' and ('lastmade', s.v, None) in facts:
+                facts = facts - {('lastmade', s.v, None)}
             if s is not None and s.k == 'ref' and ('fresh', s.v, None) in facts:
                 return facts | {('tail', s.v, None)}
             # tail moved elsewhere: earlier claims are void
@@ -265,6 +278,8 @@ class TailHooks(Hooks):
         for x in facts:
             if x[0] == 'linked' and ('term', x[1], None) in facts and ('tail', x[1], None) not in facts:
                 self.bad.append((term[2], x[1]))
+            if x[0] == 'lastmade':
+                self.bad.append((term[2], x[1]))
 
 
 def rule_fresh_tail(ctx, chk, funcs, rule='list-tail'):
@@ -280,8 +295,8 @@ def rule_fresh_tail(ctx, chk, funcs, rule='list-tail'):
         n += 1
         if h.bad:
             loc, var = h.bad[0]
-            chk.bad(rule, 'fresh-tail:%s:%s' % (base_name(name), var), loc, '%s can return successfully with the fresh, terminated node '
-                    '`%s` linked behind another node while pathTail does not name it: the tail is no longer the last node'
+            chk.bad(rule, 'fresh-tail:%s:%s' % (base_name(name), var), loc, '%s can return successfully after making `%s` the last node (fresh node '
+                    'linked behind another one, or `->next = NULL` on an existing node) while pathTail does not name it: the tail is no longer the last node'
                     % (name, var), func=name)
         else:
             chk.ok(rule, 'fresh-tail:%s' % name, f.loc, 'every fresh terminated node linked at the end becomes pathTail', func=name)
